@@ -18,7 +18,7 @@ PROFILES = {
     'S2': dict(create=14, destroy=8, write=25, readall=18, probe=10, find=8, iter=8, clone=2, switch=2, reg=1, createw=2),
     'S3': dict(create=10, destroy=8, forged=40, probe=5, dump=4, clone=2, switch=2, newworld=3, foreign=10, preset=2),
     'S4': dict(create=18, createw=10, destroy=16, ddestroy=4, iterd=8, clone=5, dropw=5, switch=4, reg=16, todirect=3, newworld=3, write=3),
-    'S5': dict(create=14, destroy=10, iter=25, readall=15, iterd=6, createw=3, len=3, find=6),
+    'S5': dict(create=14, destroy=10, iter=25, readall=15, iterd=6, createw=3, len=3, find=6, write=6),
     'S6': dict(create=16, destroy=6, iterd=25, probe=10, readall=10, iter=5, reg=3, todirect=3),
     'S8': dict(create=12, destroy=12, todirect=18, probe=10, dprobe=25, ddestroy=6, iter=5, iterd=5, find=5, createw=2),
     'S9': dict(create=14, destroy=8, fault=12, clone=8, dropw=5, iter=6, iterd=8, reg=10, probe=8, readall=5, createw=3, newworld=3),
